@@ -23,7 +23,7 @@ ASSUMPTIONS = ['CachedMethods compatibility shim', 'RDKit (sanitisation without 
 CENTRES = ['B', 'C', 'N', 'O', 'F', 'Si', 'P', 'S', 'Cl', 'Br', 'I', 'As', 'Se']
 NEIGH = [(1, 'C'), (2, 'C'), (3, 'C'), (1, 'N'), (2, 'N'), (3, 'N'), (1, 'O'), (2, 'O'), (1, 'S'), (2, 'S'), (1, 'F'), (1, 'Cl')]
 CONFIG = {
-    'quick': {'shards': 16, 'budget_s': 150, 'maxbonds': 3, 'n_corpus': 4200, 'exhaustive_subspaces': [
+    'quick': {'shards': 16, 'budget_s': 300, 'maxbonds': 3, 'n_corpus': 4200, 'exhaustive_subspaces': [
         '13 centre elements x charge -2..+2 x radical x multisets of <= 3 bonds over 12 (order, neighbour) types'],
         'floors': {'evaluations': 60000, 'distinct_nontrivial': 20000, 'env.exhaustive': 50000, 'oracle.table-interpreter': 60000,
                    'oracle.rdkit-both-defined': 8000, 'totals.compared': 700, 'aromatic-atoms.compared': 3000,
